@@ -101,7 +101,7 @@ def rr_jobs(tier):
                 wit += ["accepted", "wellformed"]
             if suf == "_trunc1" or nm in ("NS_selfptr", "NS_ownstart", "NS_fwdptr"):
                 wit += ["rejected"]
-            kfg = "wire_agree_optdup" if nm in ("OPT2", "HTTPS2") else "wire_agree"
+            kfg = "wire_agree_optdup" if (nm in ("OPT2", "HTTPS2") and suf == "") else "wire_agree"
             J.append(dict(name="wire_agree_%s%s" % (nm, suf), harness="wire_agree.c", kf_group=kfg, defines=d + ["-DRD_MAXRR=1", "-DRD_MAXITEM=4"],
                           real=LIB, support=SUP, unwind=140, leak=True, witnesses=wit,
                           bound="[id symbolic, flags word concrete | qd=1 | a.b qtype=type IN | owner C0 0C, type %d, class %s, ttl symbolic, "
@@ -140,4 +140,7 @@ def hdr_jobs(tier):
 
 
 def jobs(tier, seed):
-    return hdr_jobs(tier) + rr_jobs(tier)
+    J = hdr_jobs(tier) + rr_jobs(tier)
+    for j in J:
+        j.setdefault("mem_gb", 6)
+    return J
